@@ -561,7 +561,7 @@ var waitWriteSide = waitSide{
 
 var waitAcceptSide = waitSide{
 	kind: "Accept", okClass: "accepted",
-	dlKey:   func(seq string) string { return "accept-deadline-ignored" },
+	dlKey:   func(seq string) string { return "deadline-" + seq + "-ignored:Accept" },
 	prepare: func(e *waitEnv) error { return nil },
 	call:    func(e *waitEnv, i int) *waitCall { return e.goAccept(i) },
 	wake: func(e *waitEnv, n int) error {
@@ -751,8 +751,8 @@ func waitScDeadlineChange(sd *waitSide, seq string, n int) func(*waitEnv, *waitR
 			// one token for several callers: one of them may keep the timer of the replaced deadline
 			keyMissing, keyEarly = "deadline-change-multi-waiter:late:"+sd.kind, "deadline-change-multi-waiter:early:"+sd.kind
 		}
-		if sd.kind == "Accept" {
-			keyMissing, keyEarly = sd.dlKey(seq), sd.dlKey(seq)
+		if sd.kind == "Accept" && n == 1 {
+			keyMissing = sd.dlKey(seq)
 		}
 		by := dl.Add(waitMargin)
 		if seq == "set-past" {
@@ -793,9 +793,6 @@ func waitScCleared(sd *waitSide, n int) func(*waitEnv, *waitResult, *waitScenari
 			key := "deadline-cleared-still-fires:" + sd.kind
 			if n > 1 {
 				key = "deadline-cleared-still-fires:multi-waiter:" + sd.kind
-			}
-			if sd.kind == "Accept" {
-				key = sd.dlKey("cleared")
 			}
 			r.violate(key, "%s: %s (caller %d of %d) returned %s at a deadline that had been cleared before it expired", e.name, sd.kind, fired, n, calls[fired].class)
 			return
@@ -1028,9 +1025,7 @@ func waitCatalogue(thorough bool, rng *vrng) []*waitScenario {
 			add("deadline-"+seq, sd.kind, 1, pair, waitScDeadlineChange(sd, seq, 1))
 		}
 		add("deadline-cleared", sd.kind, 1, pair, waitScCleared(sd, 1))
-		if sd.kind != "Accept" {
-			add("deadline-cleared", sd.kind, 2, pair, waitScCleared(sd, 2))
-		}
+		add("deadline-cleared", sd.kind, 2, pair, waitScCleared(sd, 2))
 		// several callers parked under a deadline that is then extended
 		add("deadline-set-later", sd.kind, 2, pair, waitScDeadlineChange(sd, "set-later", 2))
 		if thorough {
